@@ -1683,8 +1683,11 @@ class OperatorLeftScalarMult(Operator):
 
         scalar_conj = self.scalar.conjugate()
         if complex(scalar_conj).imag == 0:
-            # Real scalars commute with every (real-)linear operator
-            return scalar_conj * self.operator.adjoint
+            # Real scalars commute with every (real-)linear operator. The
+            # real part is used since the scalar can be of complex type
+            # (product of merged complex scalars) while the adjoint maps
+            # into a real space.
+            return scalar_conj.real * self.operator.adjoint
         else:
             # The adjoint of ``x --> s * A(x)`` is ``y --> A^*(conj(s) * y)``,
             # which equals ``conj(s) * A^*(y)`` only for complex-linear
